@@ -1424,6 +1424,9 @@ func corner() []*Case {
 		{K: "ia", A: []string{"s1", "@1"}, B: true}, {K: "boot"}}
 	with := func(ops ...Op) *Case { return &Case{Ops: append(append([]Op{}, boot...), ops...)} }
 	return []*Case{
+		// (subject, provisioner name) pairs that differ only in where a separator would fall
+		with(Op{K: "sp", A: []string{"x"}}, Op{K: "sp", A: []string{"n@x"}}, Op{K: "sa", A: []string{"s0@n", "x"}, B: true}, Op{K: "sa", A: []string{"s0", "n@x"}, B: false},
+			Op{K: "la", N: 10}, Op{K: "ra", A: []string{"@2"}}, Op{K: "sa", A: []string{"s0@n", "x"}, B: false}, Op{K: "rs"}, Op{K: "rp", A: []string{"@2"}}, Op{K: "la", N: 10}),
 		// exactly one full page of administrators (100), one more, two full pages: the rename must re-index all of them
 		manyAdmins(100), manyAdmins(101), manyAdmins(200),
 		// D2: demote one super admin, delete the other
